@@ -19,6 +19,12 @@ if '--set' in ARGS:
     i = ARGS.index('--set'); SET = int(ARGS[i + 1]); del ARGS[i:i + 2]
 if '--out' in ARGS:
     i = ARGS.index('--out'); OUT = ARGS[i + 1]; del ARGS[i:i + 2]
+ONLY = None
+if '--only' in ARGS:
+    i = ARGS.index('--only'); ONLY = ARGS[i + 1].split(','); del ARGS[i:i + 2]
+DEL_ALL = '--del-all' in ARGS
+if DEL_ALL:
+    ARGS.remove('--del-all')
 FILES = ARGS or ['src/raw/node.rs', 'src/raw/mod.rs', 'src/raw/build.rs', 'src/raw/ops.rs', 'src/raw/registry.rs', 'src/bytes.rs',
                          'src/raw/counting_writer.rs', 'src/raw/crc32.rs', 'src/automaton/mod.rs']
 SWAPS = [(' == ', ' != '), (' != ', ' == '), (' < ', ' <= '), (' <= ', ' < '), (' > ', ' >= '), (' >= ', ' > '), (' && ', ' || '), (' || ', ' && '),
@@ -51,6 +57,9 @@ def mutants():
                     if code[:i].count('"') % 2 == 1:
                         continue
                     out.append({'file': rel, 'line': ln + 1, 'col': i, 'old': a, 'new': b, 'text': st[:100]})
+            if DEL_ALL and st.endswith(';') and not st.startswith(('let ', 'use ', 'return', 'pub ', 'type ', 'const ', 'static ', 'mod ', '}')) and st.count('(') == st.count(')') and st.count('{') == st.count('}') \
+                    and not DELETE.match(code):
+                out.append({'file': rel, 'line': ln + 1, 'col': len(line) - len(line.lstrip()), 'old': line.strip(), 'new': '', 'text': st[:100]})
             if SET == 2 and DELETE.match(code) and '=' not in code.split('(')[0]:
                 out.append({'file': rel, 'line': ln + 1, 'col': len(line) - len(line.lstrip()), 'old': line.strip(), 'new': '', 'text': st[:100]})
     return out
@@ -68,7 +77,7 @@ def run_one(m):
         open(p, 'w').write('\n'.join(lines))
         env = dict(os.environ, VERIF_REPO=dst, VERIF_EVIDENCE_DIR=os.path.join(tmp, 'ev'))
         caught, und = [], []
-        for pid in claimed:
+        for pid in (ONLY or claimed):
             r = subprocess.run([os.path.join(V, 'check'), pid], env=env, stdout=subprocess.PIPE, stderr=subprocess.STDOUT, text=True)
             if r.returncode == 2:
                 return dict(m, result='nobuild')
